@@ -563,7 +563,17 @@ def run_boxby_case(ctx, case):
                 by_se = pd.Series(pd.Categorical(by, categories=order_,
                                                  ordered=bool(len(v) % 2)), index=idx)
                 ctx.tag("box:by-categorical-with-its-own-order")
-            bp = boxplot.Boxplot(pd.Series(v, index=idx), by=by_se,
+            # the series carry names (columns of a frame; a grouping vector computed
+            # from the data series inherits its name)
+            nk = (len(v) + len(set(by))) % 5
+            dname, bname = [(None, None), ("flow", "flow"), ("flow", "season"),
+                            (None, "value"), ("q", 0)][nk]
+            if nk:
+                ctx.tag("box:by-named-series")
+            if nk == 1:
+                ctx.tag("box:by-named-like-the-data")
+            by_se.name = bname
+            bp = boxplot.Boxplot(pd.Series(v, index=idx, name=dname), by=by_se,
                                  box_coverage=bc, whiskers_coverage=wc)
             st = bp.stats
         except Exception as e:
@@ -815,6 +825,12 @@ def run(ctx):
                 off, spread = [(1.7e9, 1.0), (1.0, 1e-10), (1e6, 1e-4), (-4.2e5, 1e-5),
                                (3e12, 100.0)][int(rng.integers(0, 5))]
                 vc[0] = off + spread * rng.uniform(0, 1, size=nv)
+            elif it0 % 4 == 2 and nv >= 3:
+                # a column in very large or very small units (volumes in litres, storages
+                # in cubic kilometres): the raw density is 1e-10 .. 1e-16 or 1e+12
+                un_ = [1e10, 3e12, 1e16, 1e-12, 1e25, 1e-30][int(rng.integers(0, 6))]
+                vc[-1] = un_ * rng.normal(size=nv) + un_
+                ctx.tag("violin:column-in-extreme-units")
             run_violin_case(ctx, {"kind": "violin", "cols": vc,
                                   "npseed": int(rng.integers(0, 2 ** 31))})
 
